@@ -4,7 +4,7 @@ thread creation) interleaved with full iterations, partially consumed
 generators, cache_clear() and is_running() on yielded objects.  pids() and
 pid_exists(n) are evaluated in *every* reached state."""
 from vf.explore.history import bfs
-from vf.harness import use_world, outcome, sample
+from vf.harness import use_world, outcome, sample, residue, ModuleResidue
 from vf.simk.world import World, CLK_TCK
 
 ID = "C04"
@@ -35,6 +35,8 @@ class Exec:
         w.spawn(w.mypid, ppid=1, comm=b"caller", start=50)
         self.w = w
         use_world(w)
+        self.modres = ModuleResidue([psutil, psutil._pslinux, psutil._common, psutil._psposix],
+                                    known=("_pmap", "_pids_reused", "_LOWEST_PID"))
         self.gens = []          # live generators: dict(g=gen, listed=set|None, yielded=[pids], attrs=key)
         self.held = {}          # pid -> (object, incarnation uid) yielded by the last complete iteration
         self.ref = None         # reference cache: pid -> object   (None = unknown, identity not required)
@@ -345,7 +347,10 @@ class Exec:
             p = w.procs.get(o.pid)
             m = None if p is None else (o._ident[1] == p.start / CLK_TCK + w.btime)
             return [o.pid, m, o._gone, o._pid_reused, getattr(o, "_vf_uid", None) is not None and
-                    (p is not None and p.uid == o._vf_uid)]
+                    (p is not None and p.uid == o._vf_uid),
+                    residue(o, ("_pid", "_gone", "_pid_reused", "_ident", "_create_time", "_proc", "_lock", "_hash", "_exitcode", "info",
+                                "_name")), o._name is not None, sorted(getattr(o, "info", None) or ()),
+                    residue(o._proc, ("pid", "_procfs_path", "_name")), o._proc._name is not None]
         pm = {pid: tok(o) + [self.ref is not None and self.ref.get(pid) is o,
                              pid in self.held and self.held[pid][0] is o]
               for pid, o in sorted(ps._pmap.items())}
@@ -368,7 +373,7 @@ class Exec:
                 "mbf": {pid: ps._pmap.get(pid) is o for pid, o in sorted(self.must_be_fresh.items())},
                 "sgr": {pid: ps._pmap.get(pid) is o for pid, o in sorted(self.seen_gone_then_recycled.items())},
                 "stale": {pid: [ps._pmap.get(pid) is o, any(fl_pmap_has(st, pid, o) for st in self.gens)] for pid, o in sorted(self.stale.items())},
-                "ref": None if self.ref is None else sorted(self.ref)}
+                "ref": None if self.ref is None else sorted(self.ref), "modules": self.modres.diff()}
 
 
 def ps_cached(obj):
